@@ -519,7 +519,7 @@ func optionNames(args []string) string {
 }
 
 func (rc *RunCtx) c16Run(name string, args []string, dir string, p parCfg) *CmdOutcome {
-	full := append([]string{"--max-cpu", fmt.Sprint(p.MaxCPU), "--batch-size", fmt.Sprint(p.BatchSize)}, args...)
+	full := append(p.cpuArgs(), args...)
 	knobs := map[string]int{}
 	if p.Chunk > 0 {
 		knobs["chunk"] = p.Chunk
